@@ -30,6 +30,14 @@ def run(ctx):
     cand = ctx.tlc(FAMILY, "SqlFront", "MC_agree.cfg", allow_violation=True, timeout=600, workers=2)
     ctx.note("tlc_candidate", {"cfg": "MC_agree.cfg", "invariant": "Agree", "violated": cand.violated,
                                "counterexample_tail": [l for l in cand.counterexample if l.startswith("/\\ s =")][-1:]})
+    # stripSQLComments after arc commit b6c6321: NoDrop must hold on the current model and must be REJECTED by
+    # TLC on the as-written-before variant (negative control: the model can express the repaired defect)
+    nod = ctx.tlc(FAMILY, "SqlFront", "MC_nodrop.cfg", timeout=600, workers=2)
+    neg = ctx.tlc(FAMILY, "SqlFront", "MC_stripbug.cfg", allow_violation=True, timeout=600, workers=2)
+    if neg.violated != "NoDrop":
+        raise InfraError("negative control MC_stripbug.cfg was not rejected by TLC (violated=%s)" % neg.violated)
+    ctx.note("tlc_negative_control", {"MC_nodrop.cfg": {"distinct": nod.distinct, "holds": True},
+                                      "MC_stripbug.cfg": {"violated": neg.violated}})
     # one TLC run does both: model checking of the structural invariant Sane over every enumerated string
     # and generation (EmitInv prints the analysis of every complete string)
     gen = ctx.tlc(FAMILY, "SqlFront", "Gen_%s.cfg" % size, timeout=3000, workers=6)
@@ -43,11 +51,12 @@ def run(ctx):
         labs[t["lab"]] = labs.get(t["lab"], 0) + 1
         labs["V:" + t["labV"]] = labs.get("V:" + t["labV"], 0) + 1
     need = ["none", "bslash-quote", "estring-escaped-backslash", "quote-in-line-comment", "quote-in-block-comment",
-            "nested-block-comment", "cr-ends-line-comment", "dollar-tag-non-ascii", "strip-drops-last-byte",
-            "V:backtick-as-quote"]
+            "nested-block-comment", "cr-ends-line-comment", "dollar-tag-non-ascii", "V:backtick-as-quote"]
     missing = [l for l in need if not labs.get(l)]
     if missing:
         raise InfraError("vacuous enumeration: no string exercises %s" % missing)
+    if not any(t.get("labB") == "strip-drops-last-byte" for t in gen.traces):
+        raise InfraError("vacuous enumeration: no string would expose the repaired last-byte defect")
     if not any(not t["rt"] for t in gen.traces):
         raise InfraError("vacuous enumeration: no placeholder look-alike precedes a literal")
     ctx.note("tlc_generation", {"cfg": "Gen_%s.cfg" % size, "strings": len(gen.traces), "distinct": gen.distinct,
